@@ -1036,6 +1036,13 @@ func (c *VCtx) callModSet(fn *ssa.Function, cc *ssa.CallCommon, depth int) (map[
 func (c *VCtx) callbackMods(m map[string]Sort, cc *ssa.CallCommon) {
 	m["G:calls"] = ArrSort(SRef, SInt)
 	m["G:calltime"] = ArrSort(SRef, SInt)
+	for i, a := range cc.Args {
+		if s := sortOf2(a.Type()); s != "" {
+			if _, isSig := a.Type().Underlying().(*types.Signature); !isSig {
+				m[fmt.Sprintf("G:lastarg:%d:%s", i, s)] = ArrSort(SRef, s)
+			}
+		}
+	}
 	m["G:now"] = SInt
 	res := cc.Signature().Results()
 	for i := 0; i < res.Len(); i++ {
